@@ -123,6 +123,9 @@ class HTTP(BaseComponent):
                         data = next(res.body)
                 except StopIteration:
                     data = None
+                except Exception:
+                    self._abort(res)
+                    raise
                 self.fire(stream(res, data))
         else:
             if res.body:
@@ -135,6 +138,20 @@ class HTTP(BaseComponent):
                 del self._clients[sock]
 
             res.done = True
+
+    def _abort(self, res):
+        """
+        The body of a response whose status line and headers are on the wire
+        cannot be completed (its iterator raised): neither a terminating chunk
+        nor another response may follow, the only signal left is to drop the
+        connection so that the peer sees an incomplete message.
+        """
+        sock = res.request.sock
+        res.close = True
+        self.fire(close(sock))
+        if sock in self._clients:
+            del self._clients[sock]
+        res.done = True
 
     @handler('response')  # noqa
     def _on_response(self, res):
@@ -175,6 +192,10 @@ class HTTP(BaseComponent):
                     data = next(res.body)
             except StopIteration:
                 data = None
+            except Exception:
+                # the head is sent: _on_response_failure must not put an error response after it
+                self._abort(res)
+                raise
             self.fire(stream(res, data))
         else:
             if isinstance(res.body, bytes):
@@ -183,7 +204,11 @@ class HTTP(BaseComponent):
                 body = res.body.encode(self._encoding)
             else:
                 parts = (s if isinstance(s, bytes) else s.encode(self._encoding) for s in res.body if s is not None)
-                body = b''.join(parts)
+                try:
+                    body = b''.join(parts)
+                except Exception:
+                    self._abort(res)
+                    raise
 
             if body:
                 if res.chunked:
